@@ -6,7 +6,9 @@
    [ops] of envelopes handed to Overlay.Process (any of the seven registered message
    types, every field optional / arbitrary) and local calls, started in state [s].
    [all_fixed] = the model with the repairs F05 F06 F07 F08 F26 F70 F71 F72;
-   [only n] = all repairs but Fn; [none_fixed] = the code as pinned.
+   [only n] = all repairs but Fn; [only 71] = the code as it is now (F71 is a recorded,
+   unrepaired finding); [none_fixed] = the code as pinned.
+   [base_fixed fx] = fx has F26 and F72; [crash_fixed fx] = fx has F05 F06 F07 F08 F70.
    [Inv s] = no overlay mutex is left locked and every listed instance has its tree. *)
 From Coq Require Import List Arith Bool.
 Import ListNotations.
@@ -25,6 +27,19 @@ Print Assumptions c07_no_crash_no_leak.
 Theorem c07_reachable_inv : forall ops, Inv (run all_fixed init ops).
 Proof. exact reachable_inv. Qed.
 Print Assumptions c07_reachable_inv.
+
+(* the same for the code as it is now *)
+Theorem c07_current_code_safe : forall ops s,
+  Inv s ->
+  Forall (fun r => r_out r = Ok /\ leaked (r_state r) = [] /\ disciplined (r_events r) = true)
+         (trace (only 71) s ops) /\
+  Inv (run (only 71) s ops).
+Proof. exact current_code_safe. Qed.
+Print Assumptions c07_current_code_safe.
+
+Theorem c07_current_code_flags : base_fixed (only 71) /\ crash_fixed (only 71).
+Proof. exact (conj current_base current_crash). Qed.
+Print Assumptions c07_current_code_flags.
 
 (* one step: outcome, invariant, every table access under its mutex, stored trees untouched *)
 Theorem c07_lock_discipline : forall s o,
@@ -46,27 +61,36 @@ Theorem c07_known_tree_stays : forall ops s id t,
 Proof. exact known_tree_stays. Qed.
 Print Assumptions c07_known_tree_stays.
 
-(* the next legitimate operation is served, in every state satisfying the invariant *)
-Theorem c07_still_serves_tree_request : forall s p nf id ver t,
+Theorem c07_known_tree_stays_gen : forall fx ops s id t,
+  base_fixed fx -> crash_fixed fx -> Inv s ->
+  (forall o, In o ops -> ~ touches o id) ->
+  lookup id (store s) = Some (Have t) ->
+  lookup id (store (run fx s ops)) = Some (Have t).
+Proof. exact known_tree_stays_gen. Qed.
+Print Assumptions c07_known_tree_stays_gen.
+
+(* the next legitimate operation is served, in every state satisfying the invariant, by
+   every variant with F26, F72 and the crash / leak repairs (the current code included) *)
+Theorem c07_still_serves_tree_request : forall fx, base_fixed fx -> crash_fixed fx -> forall s p nf id ver t,
   Inv s -> lookup id (store s) = Some (Have t) -> reachable p = true ->
-  let r := step all_fixed s (Recv p false nf (MReqTree id ver)) in
+  let r := step fx s (Recv p false nf (MReqTree id ver)) in
   r_out r = Ok /\
   In (ESend p (if ver =? 0 then RTreeMarshal (t_id t) (ro_id (t_roster t)) (root_node t)
                else RRespTree (t_id t) (ro_id (t_roster t)) (root_node t))) (r_events r).
 Proof. exact serves_tree_request. Qed.
 Print Assumptions c07_still_serves_tree_request.
 
-Theorem c07_still_serves_roster_request : forall s p nf rid i t,
+Theorem c07_still_serves_roster_request : forall fx, base_fixed fx -> crash_fixed fx -> forall s p nf rid i t,
   Inv s -> In (i, Have t) (store s) -> ro_id (t_roster t) = rid -> reachable p = true ->
-  let r := step all_fixed s (Recv p false nf (MReqRoster rid)) in
+  let r := step fx s (Recv p false nf (MReqRoster rid)) in
   r_out r = Ok /\ In (ESend p (RRoster rid)) (r_events r).
 Proof. exact serves_roster_request. Qed.
 Print Assumptions c07_still_serves_roster_request.
 
-Theorem c07_still_serves_protocol_message : forall s p nf from k t f,
+Theorem c07_still_serves_protocol_message : forall fx, base_fixed fx -> crash_fixed fx -> forall s p nf from k t f,
   Inv s -> lookup (tk_tree k) (store s) = Some (Have t) ->
   will_deliver s t (mkP p from k BPing) f ->
-  let r := step all_fixed s (Recv p false nf (MProto from (Some k) BPing)) in
+  let r := step fx s (Recv p false nf (MProto from (Some k) BPing)) in
   r_out r = Ok /\ In (EDeliver k (tk_node f)) (r_events r).
 Proof. exact serves_protocol_message. Qed.
 Print Assumptions c07_still_serves_protocol_message.
@@ -76,12 +100,14 @@ Example c07_will_deliver_satisfiable :
 Proof. exact will_deliver_example. Qed.
 Print Assumptions c07_will_deliver_satisfiable.
 
-(* a run on a tree the server lacks: the sender is asked (even if others were asked before) ... *)
-Theorem c07_asks_sender_for_tree : forall s p nf from k b,
+(* a run on a tree the server lacks: with F71 the sender is asked (even if others were asked
+   before); the current code lacks F71: c07_f71_refuted ... *)
+Theorem c07_asks_sender_for_tree : forall fx, base_fixed fx -> crash_fixed fx -> forall s p nf from k b,
+  f71 fx = true ->
   Inv s -> b <> BGarbage -> reachable p = true ->
   (lookup (tk_tree k) (store s) = None \/
    exists asked, lookup (tk_tree k) (store s) = Some (Req asked) /\ mem_nat p asked = false) ->
-  let r := step all_fixed s (Recv p false nf (MProto from (Some k) b)) in
+  let r := step fx s (Recv p false nf (MProto from (Some k) b)) in
   r_out r = Ok /\
   In (ESend p (RReqTree (tk_tree k))) (r_events r) /\
   In (mkP p from k b) (parked (r_state r)) /\
@@ -90,12 +116,12 @@ Proof. exact asks_sender_for_tree. Qed.
 Print Assumptions c07_asks_sender_for_tree.
 
 (* ... and the answer stores the tree and hands the parked message to its handler *)
-Theorem c07_still_serves_after_tree_arrives : forall s p nf tm ro t pm f asked,
-  Inv s -> tm_tree tm <> 0 -> make_tree all_fixed tm ro = MTOk t ->
+Theorem c07_still_serves_after_tree_arrives : forall fx, base_fixed fx -> crash_fixed fx -> forall s p nf tm ro t pm f asked,
+  Inv s -> tm_tree tm <> 0 -> make_tree fx tm ro = MTOk t ->
   lookup (t_id t) (store s) = Some (Req asked) ->
   filter (fun pm => tk_tree (p_to pm) =? t_id t) (parked s) = [pm] ->
   will_deliver s t pm f ->
-  let r := step all_fixed s (Recv p false nf (MRespTree (Some tm) (Some ro))) in
+  let r := step fx s (Recv p false nf (MRespTree (Some tm) (Some ro))) in
   r_out r = Ok /\
   lookup (t_id t) (store (r_state r)) = Some (Have t) /\
   In (EDeliver (p_to pm) (tk_node f)) (r_events r).
